@@ -40,6 +40,7 @@ func cmdRecord(args []string) int {
 	seed := fs.Int64("seed", 1, "PRNG seed")
 	n := fs.Int("n", 20, "number of trials")
 	repo := fs.String("repo", "/repo", "repository (for the sample models)")
+	fs.StringVar(&opsFilter, "ops", "", "family ops: comma-separated operator names (default: all)")
 	_ = fs.Parse(args[1:])
 	f, err := os.Create(*out)
 	if err != nil {
